@@ -19,6 +19,9 @@ pub enum Ev {
     PeerRespond(usize, bool),
     PeerDataEos(usize),
     PeerRst(usize),
+    /// (blocked variant) three octets of body without END_STREAM, then trailers: HEADERS with END_STREAM queued behind DATA
+    /// that flow control holds back
+    SendTrailers(usize),
     PollResponse(usize),
     ReadAll(usize),
     ClientReset(usize),
@@ -70,6 +73,9 @@ impl LifeModel {
         let mut ev = vec![Ev::Request(true), Ev::Request(false)];
         for k in 0..n {
             ev.push(Ev::SendEos(k));
+            if blocked {
+                ev.push(Ev::SendTrailers(k));
+            }
             ev.push(Ev::PeerRespond(k, true));
             ev.push(Ev::PeerRespond(k, false));
             ev.push(Ev::PeerDataEos(k));
@@ -208,7 +214,7 @@ impl Model for LifeModel {
         let r = |k: usize| w.reqs.get(k);
         match &self.events[e] {
             Ev::Request(_) => w.reqs.len() < self.max_reqs && !w.clones.is_empty(),
-            Ev::SendEos(k) => r(*k).map(|x| x.ss.is_some() && !x.sent_eos && !x.reset).unwrap_or(false),
+            Ev::SendEos(k) | Ev::SendTrailers(k) => r(*k).map(|x| x.ss.is_some() && !x.sent_eos && !x.reset).unwrap_or(false),
             Ev::PeerRespond(k, _) => r(*k).map(|x| on_wire(t, x.sid) && !peer_responded(t, x.sid) && !peer_closed(t, x.sid) && t.rst_sent(x.sid).is_empty()).unwrap_or(false),
             Ev::PeerDataEos(k) => r(*k).map(|x| peer_responded(t, x.sid) && !peer_closed(t, x.sid) && t.rst_sent(x.sid).is_empty()).unwrap_or(false),
             // also after the peer's END_STREAM (RFC 9113 8.1: a complete response followed by RST_STREAM), never twice
@@ -238,6 +244,16 @@ impl Model for LifeModel {
             Ev::SendEos(k) => {
                 let x = &mut w.reqs[k];
                 if let Some(Ok(())) = guarded(&mut panics, "send_data", || x.ss.as_mut().unwrap().send_data(Bytes::from_static(b"bye"), true)) {
+                    x.sent_eos = true;
+                }
+            }
+            Ev::SendTrailers(k) => {
+                let x = &mut w.reqs[k];
+                let ss = x.ss.as_mut().unwrap();
+                let _ = guarded(&mut panics, "send_data", || ss.send_data(Bytes::from_static(b"bye"), false));
+                let mut tr = http::HeaderMap::new();
+                tr.insert("x-t", http::HeaderValue::from_static("1"));
+                if let Some(Ok(())) = guarded(&mut panics, "send_trailers", || ss.send_trailers(tr)) {
                     x.sent_eos = true;
                 }
             }
